@@ -111,6 +111,8 @@ def _cls_of(ctx, v):
             return int
     if hasattr(v, "sym_type"):
         return v.sym_type()
+    if isinstance(v, ModelObj) and v.kind == "exception":
+        return v.f["cls"]               # type(err) of a caught exception
     if isinstance(v, (ModelObj, Opaque, TrueDiv)) or isinstance(v, L.SymVal):
         raise Undecided("type of model object " + type(v).__name__)
     return type(v)
